@@ -884,7 +884,7 @@ func (c *Conn) readLoop() {
 func (c *Conn) dispatch(fr *FrameHeader) bool {
 	r, ok := c.loadReq(fr.Stream())
 	if !ok {
-		return false
+		return c.discardHeaders(fr)
 	}
 
 	// A canceled or finished request has taken its Response back, so there is
@@ -892,7 +892,7 @@ func (c *Conn) dispatch(fr *FrameHeader) bool {
 	if !r.acquireFor(c, fr.Stream()) {
 		c.dequeueReq(fr.Stream())
 
-		return false
+		return c.discardHeaders(fr)
 	}
 
 	// Released on the way out even if readStream panics: leaving the Ctx locked
@@ -917,6 +917,25 @@ func (c *Conn) dispatch(fr *FrameHeader) bool {
 	// last-stream-id stream cut that stream, and the ones below it that were
 	// still receiving, off half way.
 	return c.state == connStateClosed && c.queuedLen() == 0
+}
+
+// discardHeaders runs a header block nobody is waiting for through the decoder:
+// a response that arrives after its request was canceled or timed out was still
+// encoded against the dynamic table, and skipping it leaves every later
+// response on the connection decoding to the wrong fields. It reports whether
+// the read loop should stop.
+func (c *Conn) discardHeaders(fr *FrameHeader) bool {
+	if fr.Type() != FrameHeaders && fr.Type() != FrameContinuation {
+		return false
+	}
+
+	if err := c.readHeader(fr, fr.Body().(FrameWithHeaders).Headers(), nil); err != nil {
+		c.setLastErr(err)
+
+		return true
+	}
+
+	return false
 }
 
 func (c *Conn) writeRequest(ctx *Ctx) error {
@@ -1575,6 +1594,9 @@ func (c *Conn) readHeader(fr *FrameHeader, b []byte, res *fasthttp.Response) err
 	b = append(c.hdrRest, b...)
 	c.hdrRest = b[:0]
 
+	// rejected is the first thing that makes the response malformed.
+	var rejected error
+
 	for len(b) > 0 {
 		pb := b
 
@@ -1594,7 +1616,7 @@ func (c *Conn) readHeader(fr *FrameHeader, b []byte, res *fasthttp.Response) err
 
 				c.hdrRest = append(c.hdrRest, pb...)
 
-				return nil
+				return rejected
 			}
 
 			return err
@@ -1607,21 +1629,30 @@ func (c *Conn) readHeader(fr *FrameHeader, b []byte, res *fasthttp.Response) err
 
 		c.hdrFields++
 
+		// The rest of the block is decoded whatever becomes of the response:
+		// the dynamic table has to see all of it.
+		if rejected != nil || res == nil {
+			continue
+		}
+
 		// A response carries exactly one pseudo-header, :status, and it must
 		// come before any regular field.
 		// https://httpwg.org/specs/rfc7540.html#rfc.section.8.1.2.4
 		if hf.IsPseudo() {
 			if c.hdrRegularSeen {
-				return errPseudoAfterRegular
+				rejected = errPseudoAfterRegular
+				continue
 			}
 
 			if !bytes.Equal(hf.KeyBytes(), StringStatus) {
-				return fmt.Errorf("invalid response pseudo-header %q", hf.KeyBytes())
+				rejected = fmt.Errorf("invalid response pseudo-header %q", hf.KeyBytes())
+				continue
 			}
 
 			n, err := parseUint(hf.ValueBytes())
 			if err != nil || n < 100 || n > 999 {
-				return errInvalidStatus
+				rejected = errInvalidStatus
+				continue
 			}
 
 			res.SetStatusCode(n)
@@ -1632,17 +1663,20 @@ func (c *Conn) readHeader(fr *FrameHeader, b []byte, res *fasthttp.Response) err
 		c.hdrRegularSeen = true
 
 		if hasUpperCase(hf.KeyBytes()) {
-			return errUpperCaseHeader
+			rejected = errUpperCaseHeader
+			continue
 		}
 
 		if isConnectionSpecific(hf.KeyBytes()) {
-			return errConnectionSpecific
+			rejected = errConnectionSpecific
+			continue
 		}
 
 		if bytes.Equal(hf.KeyBytes(), StringContentLength) {
 			n, err := parseUint(hf.ValueBytes())
 			if err != nil {
-				return errInvalidContentLength
+				rejected = errInvalidContentLength
+				continue
 			}
 
 			res.Header.SetContentLength(n)
@@ -1651,7 +1685,7 @@ func (c *Conn) readHeader(fr *FrameHeader, b []byte, res *fasthttp.Response) err
 		}
 	}
 
-	return nil
+	return rejected
 }
 
 var (
